@@ -92,6 +92,20 @@ func coqStyle(s pr.ElementStyle) (string, bool) {
 		ok = ok && o
 		return t
 	}
+	p := func(v pr.DimOrS) string { // paddings: never auto
+		if v.S != "" || !finite(v.Value) {
+			ok = false
+			return ""
+		}
+		switch v.Unit {
+		case pr.Px:
+			return "(PPx " + q(v.Value) + ")"
+		case pr.Perc:
+			return "(PPct " + q(v.Value) + ")"
+		}
+		ok = false
+		return ""
+	}
 	b := func(v pr.DimOrS) string {
 		if v.S != "" || !finite(v.Value) { // used border width = Style value (unit Scalar), percentages.go:102
 			ok = false
@@ -114,7 +128,7 @@ func coqStyle(s pr.ElementStyle) (string, bool) {
 	}
 	parts := []string{
 		l(s.GetMarginTop()), l(s.GetMarginRight()), l(s.GetMarginBottom()), l(s.GetMarginLeft()),
-		l(s.GetPaddingTop()), l(s.GetPaddingRight()), l(s.GetPaddingBottom()), l(s.GetPaddingLeft()),
+		p(s.GetPaddingTop()), p(s.GetPaddingRight()), p(s.GetPaddingBottom()), p(s.GetPaddingLeft()),
 		b(s.GetBorderTopWidth()), b(s.GetBorderRightWidth()), b(s.GetBorderBottomWidth()), b(s.GetBorderLeftWidth()),
 		l(s.GetWidth()), l(s.GetHeight()), l(s.GetMinWidth()), l(s.GetMinHeight()),
 		m(s.GetMaxWidth()), m(s.GetMaxHeight()), sizing,
@@ -127,13 +141,13 @@ func coqMf(v pr.MaybeFloat) (string, bool) {
 		return "", false
 	}
 	if v == pr.AutoF {
-		return "None", true
+		return "OAuto", true
 	}
 	f, isF := v.(pr.Float)
 	if !isF || !finite(f) {
 		return "", false
 	}
-	return "(Some " + q(f) + ")", true
+	return "(OVal " + q(f) + ")", true
 }
 
 func coqExt(v pr.MaybeFloat) (string, bool) {
@@ -551,7 +565,7 @@ func leafWidth(w *vlib.Writer, r *vlib.Rng) {
 	o3, ok3 := coqMf(f.Width)
 	desc["out"] = fmt.Sprintf("x=%v ml=%v mr=%v w=%v", f.PositionX, f.MarginLeft, f.MarginRight, f.Width)
 	if !(ok1 && ok2 && ok3 && finite(f.PositionX)) {
-		w.Add(vlib.Case{Kind: "width", Coq: "CNonFinite", Desc: desc, Tags: []string{"nonfinite"}, Nontrivial: true})
+		w.Add(vlib.Case{Kind: "width", Coq: fmt.Sprintf("CNonFinite %s %s", in, q(cbw)), Desc: desc, Tags: []string{"nonfinite"}, Nontrivial: true})
 		return
 	}
 	coq := fmt.Sprintf("CWidth %s %s (WOut %s %s %s %s)", in, q(cbw), q(f.PositionX), o1, o2, o3)
@@ -567,7 +581,7 @@ func leafCollapse(w *vlib.Writer, r *vlib.Rng) {
 		if r.Chance(1, 6) {
 			l[i] = 0
 		}
-		items[i] = q(l[i])
+		items[i] = "(QV " + q(l[i]) + ")"
 	}
 	out := layout.VerifCollapseMargin(l)
 	w.Add(vlib.Case{Kind: "collapse", Coq: fmt.Sprintf("CCollapse %s %s", vlib.List(items), q(out)),
